@@ -3,10 +3,13 @@
   proof-carrying-code argument over the interpreter model of C07 (Model/VM.lean, the transliteration
   of `(*env).Next` in which every Go panic site is an explicit outcome `.panic site`).
 
-  `safeCheck : Array VM.Instr → Bool` (Model/SafeVM.lean) is a decidable static checker: an abstract
-  interpretation that annotates every reachable pc with a lower bound on the number of data-stack
-  entries the current function activation owns (and whether a fork is certainly pending), and
-  verifies the annotation locally.  In prose, the verifier accepts a code when
+  `safeCheck : Array VM.Instr → Bool` (Model/SafeVM.lean + Model/SafeVM2.lean) is a decidable static
+  checker: two abstract interpretations that INFER an annotation of the code and then VERIFY it
+  locally (only the verifiers `verify`, `verify2` matter for soundness).
+
+  LAYER 1 (heights).  Per reachable pc: a lower bound on the number of data-stack entries the
+  current function activation owns, whether a fork is certainly pending, and how many `pathbegin`s
+  the activation has open.  The verifier accepts a code when
     * pc 0 is a `scope` without closure parameters and the last instruction is `ret`;
     * every `scope` is annotated with its entry height (closure arguments + input; the main program
       also owns the variable values `execute` pushed), its slot count is non-negative and agrees
@@ -18,35 +21,47 @@
       height of `t`, `callrec t` exactly that, `ret` exactly 1), `forklabel` owns an entry or runs
       under a pending fork, every variable operand `[id, i]` names a slot of an existing scope,
       `call`/`callrec`/`pushpc` operands are `scope` instructions (`pushpc`: without parameters),
-      and the operand is of the right Go type (no `bad` instruction);
+      `pathend` has an open `pathbegin`, the constant key of `opindex` is not nil, and the operand
+      is of the right Go type (no `bad` instruction);
     * every successor in the same activation — fall-through, jump target, and the target a fork-like
       instruction continues at when it is backtracked into — lies inside the code, is not a `scope`
       (function entries are entered by call / callrec / callpc only), and is annotated with a state
       that relies on no more than the instruction produces.
-  THEOREM (T) `vm_total_wf_partial`: if `safeCheck` accepts the code then, from `execute`'s initial
-  state, for every input, every context (cancelled at any poll or never), every sequence of native
-  answers that contains no closure and no empty `[]pathValue` (`ExtClean`), every fuel and every
-  number of `Next` calls, no call ends in a panic at one of the TWELVE covered sites
+  LAYER 2 (frames, closures, kinds).  Per pc: the function the pc belongs to, the KINDS of the top
+  data-stack entries and of the current frame's variable slots (`clo` a closure made by a caller,
+  `cloL` a closure made by this frame, `arr` an array, `any`).  Per function, certificates: `avail`
+  (scope ids certainly on the static chain of a frame of that function), `assume` (variables of outer
+  scopes the function loads expecting a kind) and `stab` (the one kind every `store` to a variable
+  stores).  The verifier accepts when scope ids are unique, the main program assumes nothing, and
+    * `load [id, i]`: `id` is available in the function (⇒ no `env.index` panic);
+      `store`/`append`/`forklabel` only address the function's OWN frame;
+    * `callpc` pops a `clo`/`cloL` (⇒ `.([2]int)` holds); `append` needs slot kind `arr` (⇒ `.([]any)`
+      holds; only `push [...]` produces `arr`);
+    * `pushpc t` / `call t`: the target is another function, everything it has available or assumes
+      is available / holds here (`capOK`), `call`'s arguments are closures; `callrec t` targets the
+      function itself (no parameters);
+    * values are not restored on backtracking and callees can be re-entered later, so when control
+      RESUMES in a frame (a call returns, a fork is backtracked into) a slot keeps its kind only if
+      it is the slot's stable kind, and nothing is claimed about the data stack.
+  THEOREM (T) `vm_total_wf`: if `safeCheck` accepts the code then, from `execute`'s initial state, for
+  every input, every context (cancelled at any poll or never), every sequence of native answers that
+  contains no closure and no empty `[]pathValue` (`ExtClean`) and respects null keys (`KeysOK`, below),
+  every fuel and every number of `Next` calls, no call ends in a panic at ANY of the FIFTEEN sites
     stackPop, scopesPop, scopesData, valuesIndex, argsSlice, xsIndex, uncomparable, codesIndex, badOp,
-    pathsPop, assertPathValue, assertInt
+    pathsPop, assertPathValue, assertInt                                       (layer 1)
+    envIndex, assertClosure, assertArray                                       (layer 2)
   as long as the calls before it ended properly (value, error, `(nil, false)`, context error).
-  For the three sites of the paths stack the checker also tracks the number of `pathbegin`s an
-  activation has open (`pathend` needs one; the paths stack is then a sequence of segments: path
-  entries over the marker `pathValue{nil, v}` over the saved `expdepth`), requires the constant key
-  of `opindex` to be non-nil, and the theorem ASSUMES of the natives what `KeysOK` says: at every
-  turn of the run, `_index(x; k)` answers a value only for a non-null `k`, and `getpath(p)` only for
-  an array `p` without null (both raise `expected … but got: null` otherwise) — a nil path pushed
-  in path-tracking mode would be taken for the marker.
-  NOT covered (the full statement is `vm_total_wf_statement`): `envIndex`, `assertClosure`,
-  `assertArray` — they need a flow-sensitive kind discipline for variable slots across backtracking
-  (`_assign`/`_modify` re-use one slot for a closure and then a value), liveness of the frame a
-  closure points at, and the static scope chains.
+  `vm_total_wf_partial` is the same for the twelve layer-1 sites from the layer-1 check alone.
+  ASSUMED of the natives (`KeysOK`): at every turn of the run, `_index(x; k)` answers a value only
+  for a non-null `k`, and `getpath(p)` only for an array `p` without null (both raise
+  `expected … but got: null` otherwise) — in path-tracking mode a nil path would be taken for the
+  marker `pathValue{nil, v}` of `pathbegin`, and a non-array path would fail `.([]any)`.
   TIE (V): `safe_check_on_dump` — the `safe` stream of the C04 check runs `safeCheckView` (this very
   checker, on the dumped instruction syntax) on every real program: the code with no whole-code pass,
   with the tail-call pass only, and fully optimised (≈ 434 k instruction lists per quick run, the
   builtin.jq functions and the hand-written `_assign`/`_modify`/`_last` bytecode included); all accepted.
 -/
-import Gojq.Proofs.SafeVMRun
+import Gojq.Proofs.SafeVM2Run
 import Gojq.Proofs.SafeVMDump
 namespace Gojq.C08VM
 open Gojq Gojq.VM Gojq.SafeVM
@@ -56,12 +71,15 @@ open Gojq Gojq.VM Gojq.SafeVM
     carrying such values -/
 def ExtClean (ext : Nat → ExtRec) : Prop := ∀ k, ExtOK (ext k)
 
-/-- the panic sites the theorems below cover -/
-theorem covered_sites :
+/-- every panic site of the interpreter model is covered by one of the two layers … -/
+theorem covered_sites : ∀ s : Site, (covered s || covered2 s) = true := by
+  intro s; cases s <;> rfl
+
+/-- … layer 2 covers exactly these three (layer 1 the other twelve) -/
+theorem covered_sites_layer2 :
     [Site.stackPop, .pathsPop, .scopesPop, .scopesData, .envIndex, .valuesIndex, .assertArray, .assertClosure,
-      .assertPathValue, .assertInt, .argsSlice, .xsIndex, .uncomparable, .codesIndex, .badOp].filter covered =
-    [.stackPop, .pathsPop, .scopesPop, .scopesData, .valuesIndex, .assertPathValue, .assertInt, .argsSlice,
-      .xsIndex, .uncomparable, .codesIndex, .badOp] := by
+      .assertPathValue, .assertInt, .argsSlice, .xsIndex, .uncomparable, .codesIndex, .badOp].filter covered2 =
+    [.envIndex, .assertArray, .assertClosure] := by
   decide
 
 /-- The check that the `safe` stream runs on a dumped instruction list is the check on the
@@ -74,20 +92,42 @@ theorem safe_check_on_dump_vars (nvars : Nat) (c : Array Instr) :
     safeCheckViewN nvars (c.map viewS) = safeCheckN nvars c :=
   safeCheckViewN_view nvars c
 
-/-- Acceptance means that SOME annotation passes the local verifier (the inferred one); soundness
-    only uses the verifier. -/
+theorem layer1 {nvars : Nat} {c : Array Instr} (h : safeCheckN nvars c = true) :
+    checkShapes (c.map shape) nvars = true := by
+  unfold safeCheckN at h
+  simp only [Bool.and_eq_true] at h
+  exact h.1
+
+theorem layer2 {nvars : Nat} {c : Array Instr} (h : safeCheckN nvars c = true) :
+    checkShapes2 (c.map shape) = true := by
+  unfold safeCheckN at h
+  simp only [Bool.and_eq_true] at h
+  exact h.2
+
+/-- Acceptance means that SOME annotation and SOME certificate pass the local verifiers (the
+    inferred ones); soundness only uses the verifiers. -/
 theorem accepted_code_has_verified_annotation (nvars : Nat) (c : Array Instr) (h : safeCheckN nvars c = true) :
-    ∃ ann, verify (c.map shape) nvars ann = true :=
-  ⟨infer (c.map shape) nvars, h⟩
+    (∃ ann, verify (c.map shape) nvars ann = true) ∧ (∃ Ct, verify2 (c.map shape) Ct = true) :=
+  ⟨⟨infer (c.map shape) nvars, layer1 h⟩, ⟨inferCert (c.map shape), layer2 h⟩⟩
 
 /-- the static context of an accepted code -/
 def ctxOf (nvars : Nat) (c : Array Instr) : SC := ⟨c.map shape, nvars, infer (c.map shape) nvars⟩
+/-- … and its layer-2 certificate -/
+def certOf (c : Array Instr) : Cert := inferCert (c.map shape)
 
-/-- ONE INSTRUCTION.  For a verified code, every opcode run from a state that satisfies the
+theorem checked1 {nvars : Nat} {c : Array Instr} (h : safeCheckN nvars c = true) : Checked (ctxOf nvars c) :=
+  checked_of_verify (S := ctxOf nvars c) (layer1 h)
+
+theorem checked2 {nvars : Nat} {c : Array Instr} (h : safeCheckN nvars c = true) :
+    Checked2 (ctxOf nvars c) (certOf c) :=
+  checked2_of_verify (S := ctxOf nvars c) (Ct := certOf c) (layer2 h)
+
+/-- ONE INSTRUCTION, layer 1.  For a verified code, every opcode run from a state that satisfies the
     invariant `Inv` (the data stack is split among the pending activations as the annotation says,
     every pending fork restores such a state, every closure anywhere points at a checked function
-    entry, every frame's slots lie inside `values`) either yields a state that satisfies it again,
-    or panics at an UNCOVERED site, or leaves the model (`stuck`). -/
+    entry, every frame's slots lie inside `values`, the paths stack is a sequence of segments) either
+    yields a state that satisfies it again, or panics at a site of layer 2, or leaves the model
+    (`stuck`). -/
 theorem every_opcode_keeps_invariant (nvars : Nat) (c : Array Instr) (h : safeCheckN nvars c = true)
     (ins : Instr) (x : ExtRec) (hx : ExtOK x) (l : L) (e : Env) (hk : keyOK ins (stackList e.stack) x)
     (hc : codeAt (ctxOf nvars c) l.pc = some (shape ins)) (hI : Inv (ctxOf nvars c) l e) :
@@ -95,19 +135,38 @@ theorem every_opcode_keeps_invariant (nvars : Nat) (c : Array Instr) (h : safeCh
     | .ok r e' => Post (ctxOf nvars c) r e'
     | .panic site => covered site = false
     | .stuck _ => True := by
-  have := exec_post (checked_of_verify (S := ctxOf nvars c) h) ins hx hk hc hI
+  have := exec_post (checked1 h) ins hx hk hc hI
   unfold WP at this
   cases hex : exec ins x l e <;> rw [hex] at this <;> exact this
 
+/-- ONE INSTRUCTION, layer 2.  From a state that also satisfies `Inv2` (every frame's static chain
+    contains the scopes its function has available, the variables a function assumes hold their
+    stable kind, the kinds annotated for the top of the stack and the current frame's slots hold,
+    every suspended frame and pending fork resumes in such a state) every opcode yields such a state
+    again and does not panic at `envIndex`, `assertClosure`, `assertArray`. -/
+theorem every_opcode_keeps_kinds (nvars : Nat) (c : Array Instr) (h : safeCheckN nvars c = true)
+    (ins : Instr) (x : ExtRec) (hx : ExtOK x) (l : L) (e : Env) (hk : keyOK ins (stackList e.stack) x)
+    (hc : codeAt (ctxOf nvars c) l.pc = some (shape ins)) (hI : Inv (ctxOf nvars c) l e)
+    (hI2 : Inv2 (ctxOf nvars c) (certOf c) l e) :
+    match exec ins x l e with
+    | .ok r e' => Post2 (ctxOf nvars c) (certOf c) r e'
+    | .panic site => covered2 site = false
+    | .stuck _ => True := by
+  have := exec2_post (checked1 h) (checked2 h) ins hx hk hc hI hI2
+  unfold WP2 at this
+  cases hex : exec ins x l e <;> rw [hex] at this <;> exact this
+
 /-- ONE CALL of `Next` from a state between calls (reached from `s0` by calls that ended properly):
-    it does not end in a covered panic, and if it ends properly the state it leaves is again such a
-    state. -/
+    it does not end in a panic, and if it ends properly the state it leaves is again such a state. -/
 theorem every_call_keeps_invariant (nvars : Nat) (P : Params) (h : safeCheckN nvars P.code = true)
     (hext : ExtClean P.ext) (s0 : St) (hkeys : KeysOK P s0) (fuel : Nat) (s : St)
-    (hR : Reach P s0 (entry P s) s) (hB : Between (ctxOf nvars P.code) P s) :
-    NoCov (next P fuel s).1 ∧ (Proper (next P fuel s).1 →
-      Between (ctxOf nvars P.code) P (next P fuel s).2 ∧ Reach P s0 (entry P (next P fuel s).2) (next P fuel s).2) :=
-  next_inv (checked_of_verify (S := ctxOf nvars P.code) h) rfl hext hkeys fuel s hR hB
+    (hR : Reach P s0 (entry P s) s) (hB : Between (ctxOf nvars P.code) P s)
+    (hB2 : Between2 (ctxOf nvars P.code) (certOf P.code) P s) :
+    NoPanic (next P fuel s).1 ∧ (Proper (next P fuel s).1 →
+      Between (ctxOf nvars P.code) P (next P fuel s).2 ∧
+      Between2 (ctxOf nvars P.code) (certOf P.code) P (next P fuel s).2 ∧
+      Reach P s0 (entry P (next P fuel s).2) (next P fuel s).2) :=
+  loop12_inv (checked1 h) (checked2 h) rfl hext hkeys fuel _ s hR hB hB2
 
 theorem SafeHist.get : ∀ {hs : List Outcome}, SafeHist hs → ∀ (k : Nat) (hk : k < hs.length),
     (∀ (j : Nat) (hj : j < k), Proper (hs[j]'(Nat.lt_trans hj hk))) → NoCov hs[k]
@@ -120,13 +179,47 @@ theorem SafeHist.get : ∀ {hs : List Outcome}, SafeHist hs → ∀ (k : Nat) (h
       simpa using this)
     simpa using this
 
-/-- (T) WHOLE RUNS.  If the checker accepts the code of `P` (compiled with `nvars` variables) then
-    from `execute`'s initial state on any input and variable values (free of closures), under ANY
-    context `P.cancelled` and any clean oracle of native answers `P.ext` that respects null keys
-    (`KeysOK`), for every fuel and every number `n` of successive `Next` calls: the `k`-th call does not end in a panic at a covered site,
-    provided the calls before it ended properly (value / error / `(nil, false)` / context error —
-    after a panic at an uncovered site, a gap of the model or its loop bound nothing is claimed). -/
-theorem vm_total_wf_partial (nvars : Nat) (P : Params) (h : safeCheckN nvars P.code = true)
+theorem SafeHist2.get : ∀ {hs : List Outcome}, SafeHist2 hs → ∀ (k : Nat) (hk : k < hs.length),
+    (∀ (j : Nat) (hj : j < k), Proper (hs[j]'(Nat.lt_trans hj hk))) → NoPanic hs[k]
+  | [], _, k, hk, _ => by simp at hk
+  | o :: rest, h, 0, _, _ => h.1
+  | o :: rest, h, k + 1, hk, hp => by
+    have h0 : Proper o := hp 0 (Nat.succ_pos k)
+    have := SafeHist2.get (h.2 h0) k (by simpa using hk) (fun j hj => by
+      have := hp (j + 1) (by omega)
+      simpa using this)
+    simpa using this
+
+/-- THE FULL STATEMENT of (T): for EVERY panic site. -/
+def vm_total_wf_statement : Prop :=
+  ∀ (nvars : Nat) (P : Params), safeCheckN nvars P.code = true → ExtClean P.ext →
+  ∀ (input : V) (vars : List V), vpure input = true → (∀ v ∈ vars, vpure v = true) → vars.length = nvars →
+  KeysOK P (initSt input vars) →
+  ∀ (fuel n k : Nat) (hk : k < (history P fuel n (initSt input vars)).length),
+    (∀ (j : Nat) (hj : j < k), Proper ((history P fuel n (initSt input vars))[j]'(Nat.lt_trans hj hk))) →
+    ∀ site, (history P fuel n (initSt input vars))[k] ≠ .panic site
+
+/-- (T) WHOLE RUNS, ALL SITES.  If the checker accepts the code of `P` (compiled with `nvars`
+    variables) then from `execute`'s initial state on any input and variable values (free of
+    closures), under ANY context `P.cancelled` and any clean oracle of native answers `P.ext` that
+    respects null keys (`KeysOK`), for every fuel and every number `n` of successive `Next` calls: the
+    `k`-th call does not end in a panic — at any site —, provided the calls before it ended properly
+    (value / error / `(nil, false)` / context error; after a gap of the model or its loop bound
+    nothing is claimed). -/
+theorem vm_total_wf : vm_total_wf_statement := by
+  intro nvars P h hext input vars hi hv hn hkeys fuel n k hk hprev site
+  have C := checked1 h
+  have C2 := checked2 h
+  have hB := between_init C (P := P) rfl input vars hi hv hn
+  have hB2 := between2_init C C2 (P := P) rfl input vars hi hv
+  have hS := history12_safe C C2 (P := P) rfl hext hkeys fuel n _ Reach.init hB hB2
+  have := SafeHist2.get hS k hk hprev
+  intro heq
+  rw [heq] at this
+  exact this
+
+/-- (T), layer 1 alone: the height check `checkShapes` suffices for the twelve sites it covers. -/
+theorem vm_total_wf_partial (nvars : Nat) (P : Params) (h : checkShapes (P.code.map shape) nvars = true)
     (hext : ExtClean P.ext) (input : V) (vars : List V) (hi : vpure input = true)
     (hv : ∀ v ∈ vars, vpure v = true) (hn : vars.length = nvars) (hkeys : KeysOK P (initSt input vars))
     (fuel n : Nat)
@@ -144,24 +237,13 @@ theorem vm_total_wf_partial (nvars : Nat) (P : Params) (h : safeCheckN nvars P.c
   rw [hs] at this
   cases this
 
-/-- … in particular the FIRST call never ends in a covered panic, for programs without variables
-    run on a JSON input. -/
-theorem first_call_no_covered_panic (P : Params) (h : safeCheck P.code = true) (hext : ExtClean P.ext)
-    (input : JV) (hkeys : KeysOK P (initSt (.jv input) [])) (fuel : Nat) (site : Site) (hs : covered site = true) :
+/-- … in particular the FIRST call never panics, for programs without variables run on a JSON input. -/
+theorem first_call_no_panic (P : Params) (h : safeCheck P.code = true) (hext : ExtClean P.ext)
+    (input : JV) (hkeys : KeysOK P (initSt (.jv input) [])) (fuel : Nat) (site : Site) :
     (next P fuel (initSt (.jv input) [])).1 ≠ .panic site := by
-  have := vm_total_wf_partial 0 P h hext (.jv input) [] rfl (fun v hv => by simp at hv) rfl hkeys fuel 1 0
-    (by simp [history]) (fun j hj => by omega) site hs
+  have := vm_total_wf 0 P h hext (.jv input) [] rfl (fun v hv => by simp at hv) rfl hkeys fuel 1 0
+    (by simp [history]) (fun j hj => by omega) site
   simpa [history] using this
-
-/-- THE FULL STATEMENT (not proved): the same for EVERY panic site.  Open: `envIndex`,
-    `assertClosure`, `assertArray` (see the header). -/
-def vm_total_wf_statement : Prop :=
-  ∀ (nvars : Nat) (P : Params), safeCheckN nvars P.code = true → ExtClean P.ext →
-  ∀ (input : V) (vars : List V), vpure input = true → (∀ v ∈ vars, vpure v = true) → vars.length = nvars →
-  KeysOK P (initSt input vars) →
-  ∀ (fuel n k : Nat) (hk : k < (history P fuel n (initSt input vars)).length),
-    (∀ (j : Nat) (hj : j < k), Proper ((history P fuel n (initSt input vars))[j]'(Nat.lt_trans hj hk))) →
-    ∀ site, (history P fuel n (initSt input vars))[k] ≠ .panic site
 
 /-- answers that are JSON values, iterator handles, opaque tokens, iterator ends, or errors
     carrying a JSON value or a message are clean -/
@@ -207,8 +289,8 @@ theorem keysOK_of_no_values (P : Params) (s0 : St) (h : ∀ k w, (P.ext k).call 
   · rename_i hc; exact absurd hc (h _ _)
   · trivial
 
-/-! ### non-vacuity: real bytecode (dumped from the real compiler; constants replaced by `null`,
-    which the checker does not read) -/
+/-! ### non-vacuity: real bytecode (dumped from the real compiler; constants the checker does not
+    read — all but array constants of `push` and the keys of `index` — replaced by `null`) -/
 
 /-- `.[]` -/
 def codeIter : Array Instr := #[.scope 1 0 0, .iter, .ret]
@@ -237,7 +319,7 @@ def codeClosure : Array Instr :=
 /-- `.a |= . + 1` — includes the hand-written `_modify` (a `forklabel` owning no entry, and the
     `load; call _break` whose fall-through joins with one more entry) -/
 def codeModify : Array Instr :=
-  #[.scope 1 1 0, .jump 50, .scope 2 6 2, .store 2 0, .store 2 1, .store 2 2, .push .null, .store 2 3, .push .null,
+  #[.scope 1 1 0, .jump 50, .scope 2 6 2, .store 2 0, .store 2 1, .store 2 2, .push (.arr []), .store 2 3, .push .null,
     .callNative .other 0, .store 2 4, .load 2 0, .fork 44, .pathbegin, .load 2 1, .callpc, .load 2 0, .pathend,
     .store 2 1, .forklabel 2 5, .load 2 0, .fork 41, .pop, .expbegin, .load 2 4, .load 2 0, .load 2 1, .load 2 4,
     .load 2 1, .load 2 0, .callNative .getpath 2, .load 2 2, .callpc, .expend, .callNative .other 3, .store 2 0,
@@ -246,7 +328,7 @@ def codeModify : Array Instr :=
     .push .null, .load 3 0, .load 3 0, .callNative .other 2, .ret, .pushpc 52, .jump 64, .scope 6 0 0, .index (.str [97]),
     .ret, .pushpc 61, .load 1 0, .call 2, .ret]
 
--- the checker accepts them …
+-- the checker (both layers) accepts them …
 example : safeCheck codeIter = true ∧ safeCheck codeAs = true ∧ safeCheck codeCall = true ∧
     safeCheck codeReduce = true ∧ safeCheck codeLabel = true ∧ safeCheck codeTry = true ∧
     safeCheck codePath = true ∧ safeCheck codeClosure = true := by decide +kernel
@@ -266,32 +348,56 @@ def arr12 : JV := .arr [.num (.int 1), .num (.int 2)]
 example : (history ⟨codeIter, never, noExt⟩ 50 4 (initSt (.jv arr12) [])).map oTag = [0, 0, 2, 2] := by decide +kernel
 example (fuel n k : Nat) (hk : k < (history ⟨codeIter, never, noExt⟩ fuel n (initSt (.jv arr12) [])).length)
     (hprev : ∀ (j : Nat) (hj : j < k),
-      Proper ((history ⟨codeIter, never, noExt⟩ fuel n (initSt (.jv arr12) []))[j]'(Nat.lt_trans hj hk))) :
-    (history ⟨codeIter, never, noExt⟩ fuel n (initSt (.jv arr12) []))[k] ≠ .panic .stackPop :=
-  vm_total_wf_partial 0 ⟨codeIter, never, noExt⟩ (by decide +kernel) noExt_clean (.jv arr12) [] rfl
+      Proper ((history ⟨codeIter, never, noExt⟩ fuel n (initSt (.jv arr12) []))[j]'(Nat.lt_trans hj hk)))
+    (site : Site) :
+    (history ⟨codeIter, never, noExt⟩ fuel n (initSt (.jv arr12) []))[k] ≠ .panic site :=
+  vm_total_wf 0 ⟨codeIter, never, noExt⟩ (by decide +kernel) noExt_clean (.jv arr12) [] rfl
     (fun v hv => by simp at hv) rfl (keysOK_of_no_values _ _ (fun k w h => by simp [noExt] at h)) fuel n k hk hprev
-    .stackPop rfl
+    site
 
 /-! ### the checker rejects what panics: witnesses -/
+
+/-- the panic site a first call ends in (15 = none) -/
+def panicOf (c : Array Instr) : Option Site :=
+  match (next ⟨c, never, noExt⟩ 50 (initSt (.jv .null) [])).1 with
+  | .panic s => some s
+  | _ => none
 
 /-- one `pop` too many: rejected, and it does panic with `index out of range [-1]` -/
 def codeUnderflow : Array Instr := #[.scope 1 0 0, .pop, .pop, .ret]
 theorem underflow_rejected_and_panics :
-    safeCheck codeUnderflow = false ∧
-    oTag (next ⟨codeUnderflow, never, noExt⟩ 50 (initSt (.jv .null) [])).1 = 4 := by decide +kernel
+    safeCheck codeUnderflow = false ∧ panicOf codeUnderflow = some .stackPop := by decide +kernel
 
 /-- a variable operand outside its scope's slots: rejected, and `env.values[i]` panics (the scope has
     0 slots and `values` is empty) -/
 def codeBadSlot : Array Instr := #[.scope 1 0 0, .load 1 3, .ret]
 theorem bad_slot_rejected_and_panics :
-    safeCheck codeBadSlot = false ∧
-    oTag (next ⟨codeBadSlot, never, noExt⟩ 50 (initSt (.jv .null) [])).1 = 4 := by decide +kernel
+    safeCheck codeBadSlot = false ∧ panicOf codeBadSlot = some .valuesIndex := by decide +kernel
 
 /-- `pathend` without an open `pathbegin`: rejected, and `env.paths.top()` panics on the empty paths stack -/
 def codePathendAlone : Array Instr := #[.scope 1 0 0, .dup, .pathend, .ret]
 theorem pathend_alone_rejected_and_panics :
-    safeCheck codePathendAlone = false ∧
-    oTag (next ⟨codePathendAlone, never, noExt⟩ 50 (initSt (.jv .null) [])).1 = 4 := by decide +kernel
+    safeCheck codePathendAlone = false ∧ (panicOf codePathendAlone).isSome = true := by decide +kernel
+
+/-- LAYER 2: `callpc` on a value that is not a closure — the heights are fine, the kinds are not:
+    rejected, and `.([2]int)` panics -/
+def codeCallpcValue : Array Instr := #[.scope 1 0 0, .dup, .callpc, .ret]
+theorem callpc_value_rejected_and_panics :
+    checkShapes (codeCallpcValue.map shape) 0 = true ∧ safeCheck codeCallpcValue = false ∧
+    panicOf codeCallpcValue = some .assertClosure := by decide +kernel
+
+/-- LAYER 2: `append` to a variable that holds the input instead of an array: rejected, and `.([]any)` panics -/
+def codeAppendValue : Array Instr := #[.scope 1 1 0, .dup, .dup, .store 1 0, .append 1 0, .ret]
+theorem append_value_rejected_and_panics :
+    checkShapes (codeAppendValue.map shape) 0 = true ∧ safeCheck codeAppendValue = false ∧
+    panicOf codeAppendValue = some .assertArray := by decide +kernel
+
+/-- LAYER 2: a `load` of the variable of a scope that is not on the static chain (the slot exists, the
+    frame does not): rejected, and `env.index` panics -/
+def codeLoadForeign : Array Instr := #[.scope 1 0 0, .jump 4, .scope 2 1 0, .ret, .pop, .load 2 0, .ret]
+theorem load_foreign_rejected_and_panics :
+    checkShapes (codeLoadForeign.map shape) 0 = true ∧ safeCheck codeLoadForeign = false ∧
+    panicOf codeLoadForeign = some .envIndex := by decide +kernel
 
 /-- an `opindex` with a nil key (never emitted: constant keys are strings and integers) is rejected:
     in path-tracking mode it would push a second marker -/
